@@ -1,22 +1,230 @@
-// Environment of unit `cacert`: opaque rpki types and ASSUMED contracts of
-// the accessors CaCert::{new, check_loop, _check_loop} call.
+// Environment of unit `cacert`. No unit specific assumptions: CaCert::{root,
+// chain, new, check_loop, _check_loop} only use the shared engine.rs API below.
+// ======================================================================
+// Shared part (identical in units cacert, newer, manifest_policy,
+// stored_site): the rpki / std / crate API that src/engine.rs uses, as opaque
+// types with ASSUMED contracts. Every check outcome is a ghost function of
+// its inputs: rpki decides it, the units only name it. Everything engine.rs
+// calls on these types is declared (also what the extracted functions of a
+// particular unit do not call) so that a change which starts using another
+// accessor is verified instead of being rejected by the compiler.
+// ======================================================================
 
-#[verifier::external_body] pub struct RsyncUri { _opaque: () }
-#[verifier::external_body] pub struct HttpsUri { _opaque: () }
-#[verifier::external_body] pub struct Cert { _opaque: () }
-#[verifier::external_body] pub struct ResourceCert { _opaque: () }
+// ---- opaque types that only occur as field / parameter types
+#[verifier::external_body] pub struct Tal { _opaque: () }
+#[verifier::external_body] pub struct TalInfo { _opaque: () }
+#[verifier::external_body] pub struct RouteOriginAttestation { _opaque: () }
+#[verifier::external_body] pub struct AsProviderAttestation { _opaque: () }
+#[verifier::external_body] pub struct Collector { _opaque: () }
+#[verifier::external_body] pub struct Store { _opaque: () }
+#[verifier::external_body] pub struct Metrics { _opaque: () }
+#[verifier::external_body] pub struct RunMetrics { _opaque: () }
+#[verifier::external_body] pub struct CollectorRun<'a> { _p: &'a Collector }
+#[verifier::external_body] pub struct StoreRun<'a> { _p: &'a Store }
+#[verifier::external_body] pub struct PathBuf { _opaque: () }
+#[verifier::external_body] pub struct AtomicBool { _opaque: () }
+#[verifier::external_body] pub struct DecodeError { _opaque: () }
+#[verifier::external_body] pub struct ValidationError { _opaque: () }
+#[verifier::external_body] pub struct VerificationError { _opaque: () }
+#[verifier::external_body] pub struct ManifestHashMismatch { _opaque: () }
+#[verifier::external_body] pub struct UriError { _opaque: () }
+#[verifier::external_body] pub struct FmtArgs { _opaque: () }
+#[verifier::external_body] pub struct LogBook { _opaque: () }
+#[verifier::external_body] pub struct LogBookWriter { _opaque: () }
+#[verifier::external_body] pub struct PublicKey { _opaque: () }
+#[verifier::external_body] pub struct DigestAlgorithm { _opaque: () }
 
-// rpki::crypto::keys::KeyIdentifier: a 20 byte array newtype with derived
-// Eq. Abstracted to its identity (`id`); equality is structural.
-#[verifier::external_body] pub struct KeyIdentifier { _opaque: () }
-
-// rpki::repository::tal::TalUri (declared here: the type lives in the rpki
-// crate; CaCert::chain constructs the Rsync variant).
+// rpki::repository::tal::TalUri and cert::KeyUsage (declared here: the types
+// live in the rpki crate; engine.rs constructs / compares their variants)
 pub enum TalUri {
     Rsync(RsyncUri),
     Https(HttpsUri),
 }
+pub enum KeyUsage { Ca, Ee }
+impl PartialEqSpecImpl for KeyUsage {
+    open spec fn obeys_eq_spec() -> bool { true }
+    open spec fn eq_spec(&self, other: &KeyUsage) -> bool { *self == *other }
+}
+impl PartialEq for KeyUsage {
+    #[verifier::external_body]
+    fn eq(&self, other: &Self) -> bool { unimplemented!() }
+}
 
+// ---- bytes::Bytes: content identity only
+#[verifier::external_body] pub struct Bytes { _opaque: () }
+impl Clone for Bytes {
+    #[verifier::external_body]
+    fn clone(&self) -> (r: Bytes) ensures r == *self, { unimplemented!() }
+}
+pub uninterp spec fn bytes_eq(a: Bytes, b: Bytes) -> bool;
+impl PartialEqSpecImpl for Bytes {
+    open spec fn obeys_eq_spec() -> bool { true }
+    open spec fn eq_spec(&self, other: &Bytes) -> bool { bytes_eq(*self, *other) }
+}
+impl PartialEq for Bytes {
+    #[verifier::external_body]
+    fn eq(&self, other: &Self) -> bool { unimplemented!() }
+}
+// `file == crl_name` (impl PartialEq<&str> for Bytes): byte-wise comparison, named only
+pub uninterp spec fn bytes_eq_str(b: Bytes, s: Seq<char>) -> bool;
+impl<'a> PartialEqSpecImpl<&'a str> for Bytes {
+    open spec fn obeys_eq_spec() -> bool { true }
+    open spec fn eq_spec(&self, other: &&'a str) -> bool { bytes_eq_str(*self, (*other)@) }
+}
+impl<'a> PartialEq<&'a str> for Bytes {
+    #[verifier::external_body]
+    fn eq(&self, other: &&'a str) -> bool { unimplemented!() }
+}
+impl Bytes {
+    #[verifier::external_body]
+    pub fn len(&self) -> (r: usize) { unimplemented!() }
+    #[verifier::external_body]
+    pub fn is_empty(&self) -> (r: bool) { unimplemented!() }
+}
+
+// ---- rpki::uri::{Rsync, Https}
+#[verifier::external_body] pub struct RsyncUri { _opaque: () }
+#[verifier::external_body] pub struct HttpsUri { _opaque: () }
+impl Clone for RsyncUri {
+    #[verifier::external_body]
+    fn clone(&self) -> (r: RsyncUri) ensures r == *self, { unimplemented!() }
+}
+impl Clone for HttpsUri {
+    #[verifier::external_body]
+    fn clone(&self) -> (r: HttpsUri) ensures r == *self, { unimplemented!() }
+}
+pub uninterp spec fn uri_eq(a: RsyncUri, b: RsyncUri) -> bool;
+impl PartialEqSpecImpl for RsyncUri {
+    open spec fn obeys_eq_spec() -> bool { true }
+    open spec fn eq_spec(&self, other: &RsyncUri) -> bool { uri_eq(*self, *other) }
+}
+impl PartialEq for RsyncUri {
+    #[verifier::external_body]
+    fn eq(&self, other: &Self) -> bool { unimplemented!() }
+}
+pub uninterp spec fn https_eq(a: HttpsUri, b: HttpsUri) -> bool;
+impl PartialEqSpecImpl for HttpsUri {
+    open spec fn obeys_eq_spec() -> bool { true }
+    open spec fn eq_spec(&self, other: &HttpsUri) -> bool { https_eq(*self, *other) }
+}
+impl PartialEq for HttpsUri {
+    #[verifier::external_body]
+    fn eq(&self, other: &Self) -> bool { unimplemented!() }
+}
+impl RsyncUri {
+    pub uninterp spec fn ends_with_spec(&self, ext: Seq<char>) -> bool;
+    pub uninterp spec fn relative_to_spec(&self, other: &RsyncUri) -> Option<Seq<char>>;
+
+    #[verifier::external_body]
+    pub fn ends_with(&self, extension: &str) -> (r: bool)
+        ensures r == self.ends_with_spec(extension@),
+    { unimplemented!() }
+    #[verifier::external_body]
+    pub fn relative_to(&self, other: &RsyncUri) -> (r: Option<&str>)
+        ensures match r { Some(s) => self.relative_to_spec(other) == Some(s@), None => self.relative_to_spec(other) is None },
+    { unimplemented!() }
+    #[verifier::external_body]
+    pub fn join(&self, path: &[u8]) -> (r: Result<RsyncUri, UriError>) { unimplemented!() }
+    #[verifier::external_body]
+    pub fn module(&self) -> (r: &str) { unimplemented!() }
+    #[verifier::external_body]
+    pub fn path(&self) -> (r: &str) { unimplemented!() }
+    #[verifier::external_body]
+    pub fn parent(&self) -> (r: Option<RsyncUri>) { unimplemented!() }
+}
+
+// ---- rpki::repository::x509::{Serial, Time, Validity}: derived Ord over a 20
+// octet big-endian integer / a UTC time stamp. ASSUMED: total orders,
+// represented by an injective integer value. `Time::now()` reads the clock:
+// every value it returns is recorded by the ghost fact clock_reading.
+#[derive(Clone, Copy)]
+#[verifier::external_body] pub struct Serial { _opaque: () }
+#[derive(Clone, Copy)]
+#[verifier::external_body] pub struct Time { _opaque: () }
+#[derive(Clone, Copy)]
+#[verifier::external_body] pub struct Validity { _opaque: () }
+
+impl Serial { pub uninterp spec fn val(&self) -> int; }
+impl Time { pub uninterp spec fn val(&self) -> int; }
+pub uninterp spec fn clock_reading(t: Time) -> bool;
+
+pub open spec fn int_cmp(a: int, b: int) -> Ordering {
+    if a < b { Ordering::Less } else if a == b { Ordering::Equal } else { Ordering::Greater }
+}
+pub broadcast axiom fn serial_val_injective(a: Serial, b: Serial)
+    ensures #[trigger] a.val() == #[trigger] b.val() ==> a == b;
+pub broadcast axiom fn time_val_injective(a: Time, b: Time)
+    ensures #[trigger] a.val() == #[trigger] b.val() ==> a == b;
+
+impl PartialEqSpecImpl for Serial {
+    open spec fn obeys_eq_spec() -> bool { true }
+    open spec fn eq_spec(&self, other: &Serial) -> bool { self.val() == other.val() }
+}
+impl PartialEq for Serial {
+    #[verifier::external_body]
+    fn eq(&self, other: &Self) -> bool { unimplemented!() }
+}
+impl Eq for Serial {}
+impl PartialOrdSpecImpl for Serial {
+    open spec fn obeys_partial_cmp_spec() -> bool { true }
+    open spec fn partial_cmp_spec(&self, other: &Serial) -> Option<Ordering> { Some(int_cmp(self.val(), other.val())) }
+}
+impl PartialOrd for Serial {
+    #[verifier::external_body]
+    fn partial_cmp(&self, other: &Serial) -> Option<Ordering> { unimplemented!() }
+}
+impl OrdSpecImpl for Serial {
+    open spec fn obeys_cmp_spec() -> bool { true }
+    open spec fn cmp_spec(&self, other: &Serial) -> Ordering { int_cmp(self.val(), other.val()) }
+}
+impl Ord for Serial {
+    #[verifier::external_body]
+    fn cmp(&self, other: &Serial) -> Ordering { unimplemented!() }
+}
+impl PartialEqSpecImpl for Time {
+    open spec fn obeys_eq_spec() -> bool { true }
+    open spec fn eq_spec(&self, other: &Time) -> bool { self.val() == other.val() }
+}
+impl PartialEq for Time {
+    #[verifier::external_body]
+    fn eq(&self, other: &Self) -> bool { unimplemented!() }
+}
+impl Eq for Time {}
+impl PartialOrdSpecImpl for Time {
+    open spec fn obeys_partial_cmp_spec() -> bool { true }
+    open spec fn partial_cmp_spec(&self, other: &Time) -> Option<Ordering> { Some(int_cmp(self.val(), other.val())) }
+}
+impl PartialOrd for Time {
+    #[verifier::external_body]
+    fn partial_cmp(&self, other: &Time) -> Option<Ordering> { unimplemented!() }
+}
+impl OrdSpecImpl for Time {
+    open spec fn obeys_cmp_spec() -> bool { true }
+    open spec fn cmp_spec(&self, other: &Time) -> Ordering { int_cmp(self.val(), other.val()) }
+}
+impl Ord for Time {
+    #[verifier::external_body]
+    fn cmp(&self, other: &Time) -> Ordering { unimplemented!() }
+}
+impl Time {
+    #[verifier::external_body]
+    pub fn now() -> (r: Time) ensures clock_reading(r), { unimplemented!() }
+}
+impl Validity {
+    pub uninterp spec fn not_before_spec(&self) -> Time;
+    pub uninterp spec fn not_after_spec(&self) -> Time;
+    #[verifier::external_body]
+    pub fn not_before(self) -> (r: Time) ensures r == self.not_before_spec(), { unimplemented!() }
+    #[verifier::external_body]
+    pub fn not_after(self) -> (r: Time) ensures r == self.not_after_spec(), { unimplemented!() }
+    #[verifier::external_body]
+    pub fn trim(self, other: Validity) -> (r: Validity) { unimplemented!() }
+}
+
+// ---- rpki::crypto::keys::KeyIdentifier: a 20 byte array newtype with derived
+// Eq. Abstracted to its identity (`id`); equality is structural.
+#[derive(Clone, Copy)]
+#[verifier::external_body] pub struct KeyIdentifier { _opaque: () }
 impl KeyIdentifier {
     pub uninterp spec fn id(&self) -> int;
 }
@@ -29,39 +237,347 @@ impl PartialEq for KeyIdentifier {
     fn eq(&self, other: &Self) -> bool { unimplemented!() }
 }
 
+// ---- rpki::repository::cert::{Cert, ResourceCert} (ResourceCert reaches Cert's
+// accessors through Deref; they are declared on both)
+#[verifier::external_body] pub struct Cert { _opaque: () }
+#[verifier::external_body] pub struct ResourceCert { _opaque: () }
+pub uninterp spec fn cert_decode_spec(bytes: Bytes) -> Result<Cert, DecodeError>;
 impl Cert {
     pub uninterp spec fn ski_spec(&self) -> KeyIdentifier;
+    pub uninterp spec fn crl_uri_spec(&self) -> Option<RsyncUri>;
+    pub uninterp spec fn serial_spec(&self) -> Serial;
+    pub uninterp spec fn key_spec(&self) -> PublicKey;
+    pub uninterp spec fn key_usage_spec(&self) -> KeyUsage;
+    pub uninterp spec fn validity_spec(&self) -> Validity;
+    pub uninterp spec fn validate_ca_spec(self, issuer: &ResourceCert, strict: bool) -> Result<ResourceCert, ValidationError>;
+    pub uninterp spec fn validate_router_spec(&self, issuer: &ResourceCert, strict: bool) -> bool;
 
     #[verifier::external_body]
-    pub fn subject_key_identifier(&self) -> (r: KeyIdentifier)
-        ensures r == self.ski_spec(),
+    pub fn decode(source: Bytes) -> (r: Result<Cert, DecodeError>) ensures r == cert_decode_spec(source), { unimplemented!() }
+    #[verifier::external_body]
+    pub fn subject_key_identifier(&self) -> (r: KeyIdentifier) ensures r == self.ski_spec(), { unimplemented!() }
+    #[verifier::external_body]
+    pub fn crl_uri(&self) -> (r: Option<&RsyncUri>)
+        ensures match r { Some(u) => self.crl_uri_spec() == Some(*u), None => self.crl_uri_spec() is None },
+    { unimplemented!() }
+    #[verifier::external_body]
+    pub fn serial_number(&self) -> (r: Serial) ensures r == self.serial_spec(), { unimplemented!() }
+    #[verifier::external_body]
+    pub fn subject_public_key_info(&self) -> (r: &PublicKey) ensures *r == self.key_spec(), { unimplemented!() }
+    #[verifier::external_body]
+    pub fn key_usage(&self) -> (r: KeyUsage) ensures r == self.key_usage_spec(), { unimplemented!() }
+    #[verifier::external_body]
+    pub fn validity(&self) -> (r: Validity) ensures r == self.validity_spec(), { unimplemented!() }
+    #[verifier::external_body]
+    pub fn validate_ca(self, issuer: &ResourceCert, strict: bool) -> (r: Result<ResourceCert, ValidationError>)
+        ensures r == self.validate_ca_spec(issuer, strict),
+    { unimplemented!() }
+    #[verifier::external_body]
+    pub fn validate_router(&self, issuer: &ResourceCert, strict: bool) -> (r: Result<(), ValidationError>)
+        ensures r is Ok <==> self.validate_router_spec(issuer, strict),
     { unimplemented!() }
 }
-
 impl ResourceCert {
     pub uninterp spec fn ski_spec(&self) -> KeyIdentifier;
+    pub uninterp spec fn crl_uri_spec(&self) -> Option<RsyncUri>;
+    pub uninterp spec fn serial_spec(&self) -> Serial;
+    pub uninterp spec fn key_spec(&self) -> PublicKey;
+    pub uninterp spec fn validity_spec(&self) -> Validity;
     pub uninterp spec fn ca_repository_spec(&self) -> Option<&RsyncUri>;
     pub uninterp spec fn rpki_manifest_spec(&self) -> Option<&RsyncUri>;
+    pub uninterp spec fn rpki_notify_spec(&self) -> Option<&HttpsUri>;
 
     #[verifier::external_body]
-    pub fn subject_key_identifier(&self) -> (r: KeyIdentifier)
-        ensures r == self.ski_spec(),
+    pub fn subject_key_identifier(&self) -> (r: KeyIdentifier) ensures r == self.ski_spec(), { unimplemented!() }
+    #[verifier::external_body]
+    pub fn crl_uri(&self) -> (r: Option<&RsyncUri>)
+        ensures match r { Some(u) => self.crl_uri_spec() == Some(*u), None => self.crl_uri_spec() is None },
     { unimplemented!() }
+    #[verifier::external_body]
+    pub fn serial_number(&self) -> (r: Serial) ensures r == self.serial_spec(), { unimplemented!() }
+    #[verifier::external_body]
+    pub fn subject_public_key_info(&self) -> (r: &PublicKey) ensures *r == self.key_spec(), { unimplemented!() }
+    #[verifier::external_body]
+    pub fn validity(&self) -> (r: Validity) ensures r == self.validity_spec(), { unimplemented!() }
+    #[verifier::external_body]
+    pub fn ca_repository(&self) -> (r: Option<&RsyncUri>) ensures r == self.ca_repository_spec(), { unimplemented!() }
+    #[verifier::external_body]
+    pub fn rpki_manifest(&self) -> (r: Option<&RsyncUri>) ensures r == self.rpki_manifest_spec(), { unimplemented!() }
+    #[verifier::external_body]
+    pub fn rpki_notify(&self) -> (r: Option<&HttpsUri>) ensures r == self.rpki_notify_spec(), { unimplemented!() }
+    #[verifier::external_body]
+    pub fn tal(&self) -> (r: &Arc<TalInfo>) { unimplemented!() }
+}
+impl Clone for ResourceCert {
+    #[verifier::external_body]
+    fn clone(&self) -> (r: ResourceCert) ensures r == *self, { unimplemented!() }
+}
+
+// ---- rpki::repository::manifest
+#[verifier::external_body] pub struct ManifestContent { _opaque: () }
+#[verifier::external_body] pub struct Manifest { _opaque: () }
+#[verifier::external_body] pub struct FileAndHash { _opaque: () }
+#[verifier::external_body] pub struct FileListIter { _opaque: () }
+#[verifier::external_body] pub struct ManifestHash { _opaque: () }
+
+// What decoding a byte string as a manifest yields: a ghost function of the
+// bytes and the strict flag (rpki decides it, the units do not).
+pub uninterp spec fn manifest_decode_spec(bytes: Bytes, strict: bool) -> Result<Manifest, DecodeError>;
+// whether the digest of `content` under `alg` equals `hash`
+pub uninterp spec fn hash_ok(hash: Bytes, alg: DigestAlgorithm, content: Bytes) -> bool;
+
+impl Manifest {
+    pub uninterp spec fn content_spec(&self) -> ManifestContent;
+    // signature / certificate validation of the manifest against the issuing CA
+    // certificate (includes the validity period check at the time of the call)
+    pub uninterp spec fn validate_spec(self, cert: &ResourceCert, strict: bool)
+        -> Result<(ResourceCert, ManifestContent), ValidationError>;
 
     #[verifier::external_body]
-    pub fn ca_repository(&self) -> (r: Option<&RsyncUri>)
-        ensures r == self.ca_repository_spec(),
+    pub fn decode(source: Bytes, strict: bool) -> (r: Result<Manifest, DecodeError>)
+        ensures r == manifest_decode_spec(source, strict),
     { unimplemented!() }
-
     #[verifier::external_body]
-    pub fn rpki_manifest(&self) -> (r: Option<&RsyncUri>)
-        ensures r == self.rpki_manifest_spec(),
+    pub fn content(&self) -> (r: &ManifestContent) ensures *r == self.content_spec(), { unimplemented!() }
+    #[verifier::external_body]
+    pub fn validate(self, cert: &ResourceCert, strict: bool)
+        -> (r: Result<(ResourceCert, ManifestContent), ValidationError>)
+        ensures r == self.validate_spec(cert, strict),
+            // validation hands back the manifest's own content
+            r matches Ok(p) ==> p.1 == self.content_spec(),
     { unimplemented!() }
 }
 
-impl Clone for RsyncUri {
+impl ManifestContent {
+    pub uninterp spec fn number_spec(&self) -> Serial;
+    pub uninterp spec fn this_update_spec(&self) -> Time;
+    pub uninterp spec fn next_update_spec(&self) -> Time;
+    pub uninterp spec fn stale_spec(&self) -> bool;
+    pub uninterp spec fn items_spec(&self) -> Seq<FileAndHash>;
+    pub uninterp spec fn alg_spec(&self) -> DigestAlgorithm;
+    pub uninterp spec fn len_spec(&self) -> usize;
+
     #[verifier::external_body]
-    fn clone(&self) -> (r: RsyncUri)
-        ensures r == *self,
+    pub fn manifest_number(&self) -> (r: Serial) ensures r == self.number_spec(), { unimplemented!() }
+    #[verifier::external_body]
+    pub fn this_update(&self) -> (r: Time) ensures r == self.this_update_spec(), { unimplemented!() }
+    #[verifier::external_body]
+    pub fn next_update(&self) -> (r: Time) ensures r == self.next_update_spec(), { unimplemented!() }
+    #[verifier::external_body]
+    pub fn is_stale(&self) -> (r: bool) ensures r == self.stale_spec(), { unimplemented!() }
+    #[verifier::external_body]
+    pub fn file_hash_alg(&self) -> (r: DigestAlgorithm) ensures r == self.alg_spec(), { unimplemented!() }
+    #[verifier::external_body]
+    pub fn len(&self) -> (r: usize) ensures r == self.len_spec(), { unimplemented!() }
+    #[verifier::external_body]
+    pub fn is_empty(&self) -> (r: bool) { unimplemented!() }
+    #[verifier::external_body]
+    pub fn iter(&self) -> (r: FileListIter)
+        ensures r.remaining() == self.items_spec(),
     { unimplemented!() }
 }
+
+// the file list iterator: finite, yields items_spec() in order
+pub uninterp spec fn file_list_remaining(it: &FileListIter) -> Seq<FileAndHash>;
+pub uninterp spec fn file_list_count(it: &FileListIter) -> nat;
+impl Iterator for FileListIter {
+    type Item = FileAndHash;
+    #[verifier::external_body]
+    fn next(&mut self) -> Option<FileAndHash> { unimplemented!() }
+}
+impl vstd::std_specs::iter::IteratorSpecImpl for FileListIter {
+    open spec fn obeys_prophetic_iter_laws(&self) -> bool { true }
+    #[verifier::prophetic]
+    open spec fn remaining(&self) -> Seq<FileAndHash> { file_list_remaining(self) }
+    open spec fn decrease(&self) -> Option<nat> { Some(file_list_count(self)) }
+    #[verifier::prophetic]
+    open spec fn will_return_none(&self) -> bool { true }
+    open spec fn peek(&self, index: int) -> Option<FileAndHash> { None }
+}
+
+impl FileAndHash {
+    pub uninterp spec fn file_spec(&self) -> Bytes;
+    pub uninterp spec fn hash_spec(&self) -> Bytes;
+
+    #[verifier::external_body]
+    pub fn into_pair(self) -> (r: (Bytes, Bytes))
+        ensures r.0 == self.file_spec(), r.1 == self.hash_spec(),
+    { unimplemented!() }
+    #[verifier::external_body]
+    pub fn file(&self) -> (r: &Bytes) ensures *r == self.file_spec(), { unimplemented!() }
+    #[verifier::external_body]
+    pub fn hash(&self) -> (r: &Bytes) ensures *r == self.hash_spec(), { unimplemented!() }
+}
+
+impl ManifestHash {
+    pub uninterp spec fn hash_spec(&self) -> Bytes;
+    pub uninterp spec fn alg_spec(&self) -> DigestAlgorithm;
+
+    #[verifier::external_body]
+    pub fn new(hash: Bytes, algorithm: DigestAlgorithm) -> (r: ManifestHash)
+        ensures r.hash_spec() == hash, r.alg_spec() == algorithm,
+    { unimplemented!() }
+    #[verifier::external_body]
+    pub fn verify(&self, t: &Bytes) -> (r: Result<(), ManifestHashMismatch>)
+        ensures r is Ok <==> hash_ok(self.hash_spec(), self.alg_spec(), *t),
+    { unimplemented!() }
+}
+
+// ---- rpki::repository::crl::Crl
+#[verifier::external_body] pub struct Crl { _opaque: () }
+pub uninterp spec fn crl_decode_spec(bytes: Bytes) -> Result<Crl, DecodeError>;
+
+// cache_serials() only builds a lookup set: the CRL's answers stay the same
+pub open spec fn same_crl(a: Crl, b: Crl) -> bool {
+    &&& a.stale_spec() == b.stale_spec()
+    &&& a.next_update_spec() == b.next_update_spec()
+    &&& forall|k: PublicKey| a.sig_ok_spec(k) == b.sig_ok_spec(k)
+    &&& forall|s: Serial| a.contains_spec(s) == b.contains_spec(s)
+}
+
+impl Crl {
+    pub uninterp spec fn stale_spec(&self) -> bool;
+    pub uninterp spec fn next_update_spec(&self) -> Time;
+    pub uninterp spec fn sig_ok_spec(&self, key: PublicKey) -> bool;
+    pub uninterp spec fn contains_spec(&self, serial: Serial) -> bool;
+
+    #[verifier::external_body]
+    pub fn decode(source: Bytes) -> (r: Result<Crl, DecodeError>)
+        ensures r == crl_decode_spec(source),
+    { unimplemented!() }
+    #[verifier::external_body]
+    pub fn verify_signature(&self, public_key: &PublicKey) -> (r: Result<(), VerificationError>)
+        ensures r is Ok <==> self.sig_ok_spec(*public_key),
+    { unimplemented!() }
+    #[verifier::external_body]
+    pub fn is_stale(&self) -> (r: bool) ensures r == self.stale_spec(), { unimplemented!() }
+    #[verifier::external_body]
+    pub fn next_update(&self) -> (r: Time) ensures r == self.next_update_spec(), { unimplemented!() }
+    #[verifier::external_body]
+    pub fn cache_serials(&mut self) ensures same_crl(*final(self), *old(self)), { unimplemented!() }
+    #[verifier::external_body]
+    pub fn contains(&self, serial: Serial) -> (r: bool) ensures r == self.contains_spec(serial), { unimplemented!() }
+}
+impl Clone for Crl {
+    #[verifier::external_body]
+    fn clone(&self) -> (r: Crl) ensures r == *self, { unimplemented!() }
+}
+
+// ---- collector::Repository: what loading an object yields in this run
+#[verifier::external_body] pub struct CollRepository<'a> { _p: &'a Collector }
+impl<'a> CollRepository<'a> {
+    pub uninterp spec fn load_spec(&self, uri: &RsyncUri) -> Result<Option<Bytes>, RunFailed>;
+
+    #[verifier::external_body]
+    pub fn load_object(&self, uri: &RsyncUri) -> (r: Result<Option<Bytes>, RunFailed>)
+        ensures r == self.load_spec(uri),
+    { unimplemented!() }
+}
+
+// ---- log / formatting (R2) and metric counters (R14): content dropped, no
+// effect on verified state
+#[verifier::external_body]
+pub fn fmt_opaque() -> (r: FmtArgs) { unimplemented!() }
+#[verifier::external_body]
+pub fn metric_inc(c: u32) -> (r: u32) { unimplemented!() }
+impl LogBook {
+    #[verifier::external_body]
+    pub fn is_empty(&self) -> (r: bool) { unimplemented!() }
+}
+impl LogBookWriter {
+    #[verifier::external_body]
+    pub fn new(process_prefix: Option<String>) -> (r: LogBookWriter) { unimplemented!() }
+    #[verifier::external_body]
+    pub fn trace(&mut self, args: FmtArgs) { unimplemented!() }
+    #[verifier::external_body]
+    pub fn debug(&mut self, args: FmtArgs) { unimplemented!() }
+    #[verifier::external_body]
+    pub fn info(&mut self, args: FmtArgs) { unimplemented!() }
+    #[verifier::external_body]
+    pub fn warn(&mut self, args: FmtArgs) { unimplemented!() }
+    #[verifier::external_body]
+    pub fn error(&mut self, args: FmtArgs) { unimplemented!() }
+    #[verifier::external_body]
+    pub fn into_book(self) -> (r: LogBook) { unimplemented!() }
+}
+
+// ---- derived impls of extracted crate types (attributes are dropped by
+// extraction): Failed, RunFailed, FilterPolicy are `Clone, Copy`; FilterPolicy
+// is `PartialEq, Eq` (structural)
+impl Clone for Failed { #[verifier::external_body] fn clone(&self) -> (r: Self) ensures r == *self, { unimplemented!() } }
+impl Copy for Failed {}
+impl Clone for RunFailed { #[verifier::external_body] fn clone(&self) -> (r: Self) ensures r == *self, { unimplemented!() } }
+impl Copy for RunFailed {}
+impl Clone for FilterPolicy { #[verifier::external_body] fn clone(&self) -> (r: Self) ensures r == *self, { unimplemented!() } }
+impl Copy for FilterPolicy {}
+impl PartialEqSpecImpl for FilterPolicy {
+    open spec fn obeys_eq_spec() -> bool { true }
+    closed spec fn eq_spec(&self, other: &FilterPolicy) -> bool { *self == *other }
+}
+impl PartialEq for FilterPolicy {
+    #[verifier::external_body]
+    fn eq(&self, other: &Self) -> bool { unimplemented!() }
+}
+impl Eq for FilterPolicy {}
+
+// ---- std functions without a vstd specification (ASSUMED: their std definitions).
+// Declared so that a refactoring that starts using one of them is verified, not rejected.
+pub assume_specification<T: Ord + core::marker::Destruct> [std::cmp::min] (a: T, b: T) -> (r: T)
+    ensures T::obeys_cmp_spec() ==> r == (if b.cmp_spec(&a) == std::cmp::Ordering::Less { b } else { a }),
+;
+pub assume_specification<T: Ord + core::marker::Destruct> [std::cmp::max] (a: T, b: T) -> (r: T)
+    ensures T::obeys_cmp_spec() ==> r == (if b.cmp_spec(&a) == std::cmp::Ordering::Less { a } else { b }),
+;
+pub assume_specification [std::cmp::Ordering::is_lt] (o: std::cmp::Ordering) -> (r: bool)
+    ensures r == (o == std::cmp::Ordering::Less);
+pub assume_specification [std::cmp::Ordering::is_gt] (o: std::cmp::Ordering) -> (r: bool)
+    ensures r == (o == std::cmp::Ordering::Greater);
+pub assume_specification [std::cmp::Ordering::is_le] (o: std::cmp::Ordering) -> (r: bool)
+    ensures r == (o != std::cmp::Ordering::Greater);
+pub assume_specification [std::cmp::Ordering::is_ge] (o: std::cmp::Ordering) -> (r: bool)
+    ensures r == (o != std::cmp::Ordering::Less);
+pub assume_specification<T: core::marker::Destruct> [bool::then_some] (b: bool, t: T) -> (r: Option<T>)
+    ensures r == (if b { Some(t) } else { None::<T> });
+pub assume_specification<T: core::marker::Destruct> [std::option::Option::<T>::xor] (a: Option<T>, b: Option<T>) -> (r: Option<T>)
+    ensures r == (match (a, b) { (Some(x), None) => Some(x), (None, Some(y)) => Some(y), _ => None::<T> });
+pub assume_specification<'a, T: Copy> [std::option::Option::<&T>::copied] (o: Option<&'a T>) -> (r: Option<T>)
+    ensures r == (match o { Some(x) => Some(*x), None => None::<T> });
+pub assume_specification<T: core::marker::Destruct> [std::option::Option::<T>::or] (a: Option<T>, b: Option<T>) -> (r: Option<T>)
+    ensures r == (if a is Some { a } else { b });
+pub assume_specification<T: core::marker::Destruct, U: core::marker::Destruct> [std::option::Option::<T>::and] (a: Option<T>, b: Option<U>) -> (r: Option<U>)
+    ensures r == (if a is Some { b } else { None::<U> });
+pub assume_specification<T: core::marker::Destruct, U: core::marker::Destruct> [std::option::Option::<T>::zip] (a: Option<T>, b: Option<U>) -> (r: Option<(T, U)>)
+    ensures r == (match (a, b) { (Some(x), Some(y)) => Some((x, y)), _ => None::<(T, U)> });
+pub assume_specification<T, F: FnOnce(T) -> bool + core::marker::Destruct> [std::option::Option::<T>::is_some_and] (o: Option<T>, f: F) -> (r: bool)
+    requires o matches Some(x) ==> f.requires((x,)),
+    ensures match o { Some(x) => f.ensures((x,), r), None => !r };
+pub assume_specification<T, F: FnOnce(T) -> bool + core::marker::Destruct> [std::option::Option::<T>::is_none_or] (o: Option<T>, f: F) -> (r: bool)
+    requires o matches Some(x) ==> f.requires((x,)),
+    ensures match o { Some(x) => f.ensures((x,), r), None => r };
+pub assume_specification<T: core::marker::Destruct, P: FnOnce(&T) -> bool + core::marker::Destruct> [std::option::Option::<T>::filter] (o: Option<T>, p: P) -> (r: Option<T>)
+    requires o matches Some(x) ==> p.requires((&x,)),
+    ensures match o { Some(x) => (r == Some(x) && p.ensures((&x,), true)) || (r is None && p.ensures((&x,), false)), None => r is None };
+pub assume_specification<T: core::marker::Destruct, F: FnOnce() -> Option<T> + core::marker::Destruct> [std::option::Option::<T>::or_else] (o: Option<T>, f: F) -> (r: Option<T>)
+    requires o is None ==> f.requires(()),
+    ensures match o { Some(x) => r == o, None => f.ensures((), r) };
+pub assume_specification<T, U: core::marker::Destruct, F: FnOnce(T) -> U + core::marker::Destruct> [std::option::Option::<T>::map_or] (o: Option<T>, d: U, f: F) -> (r: U)
+    requires o matches Some(x) ==> f.requires((x,)),
+    ensures match o { Some(x) => f.ensures((x,), r), None => r == d };
+pub assume_specification<T, U, D: FnOnce() -> U + core::marker::Destruct, F: FnOnce(T) -> U + core::marker::Destruct> [std::option::Option::<T>::map_or_else] (o: Option<T>, d: D, f: F) -> (r: U)
+    requires o matches Some(x) ==> f.requires((x,)), o is None ==> d.requires(()),
+    ensures match o { Some(x) => f.ensures((x,), r), None => d.ensures((), r) };
+pub assume_specification<T: core::marker::Destruct, E: core::marker::Destruct> [std::result::Result::<T, E>::unwrap_or] (x: Result<T, E>, d: T) -> (r: T)
+    ensures r == (match x { Ok(v) => v, Err(_) => d });
+pub assume_specification<T, E: core::marker::Destruct, F: core::marker::Destruct> [std::result::Result::<T, E>::or] (a: Result<T, E>, b: Result<T, F>) -> (r: Result<T, F>)
+    ensures match a { Ok(v) => r == Ok::<T, F>(v), Err(_) => r == b };
+pub assume_specification<T, E, U, F: FnOnce(T) -> Result<U, E> + core::marker::Destruct> [std::result::Result::<T, E>::and_then] (x: Result<T, E>, f: F) -> (r: Result<U, E>)
+    requires x matches Ok(v) ==> f.requires((v,)),
+    ensures match x { Ok(v) => f.ensures((v,), r), Err(e) => r == Err::<U, E>(e) };
+pub assume_specification<T, E: core::marker::Destruct, F: FnOnce(T) -> bool + core::marker::Destruct> [std::result::Result::<T, E>::is_ok_and] (x: Result<T, E>, f: F) -> (r: bool)
+    requires x matches Ok(v) ==> f.requires((v,)),
+    ensures match x { Ok(v) => f.ensures((v,), r), Err(_) => !r };
+pub assume_specification<T, E, F: FnOnce(E) -> T + core::marker::Destruct> [std::result::Result::<T, E>::unwrap_or_else] (x: Result<T, E>, f: F) -> (r: T)
+    requires x matches Err(e) ==> f.requires((e,)),
+    ensures match x { Ok(v) => r == v, Err(e) => f.ensures((e,), r) };
+pub assume_specification<T> [std::mem::replace] (dest: &mut T, src: T) -> (r: T)
+    ensures r == *old(dest), *final(dest) == src;
